@@ -664,6 +664,15 @@ def _check_held(G, M, h, step, ctx, full):
         again = gm._pairs(V, ctx, what)
         if again != listing:
             bad("lists {} and, iterated once more, {}".format(listing, again))
+        # two readers of ONE view object at a time (nested loops, zip): each iteration is a listing of its own
+        if len(listing) <= 12:
+            pairs = gm._view(ctx, 'zip of ' + what + ' with itself', lambda: [(tuple(a), tuple(b)) for a, b in zip(V, V)])
+            if pairs != [(tuple(e), tuple(e)) for e in listing]:
+                bad("zipped with itself gives {} instead of every edge paired with itself".format(pairs[:6]))
+            nested = gm._view(ctx, 'nested loops over ' + what, lambda: sum(1 for _a in V for _b in V))
+            if nested != len(listing) ** 2:
+                bad("read by two nested loops gives {} pairs instead of {}".format(nested, len(listing) ** 2))
+            labels.add('two-readers-of-one-view')
         labels.add('held-edge-view-consulted')
         ev = h['events']
         if 'growth' in ev:
